@@ -215,13 +215,9 @@ func solveOne(u *UnitResult, o *OblResult, cfg solveConfig) (disagreement string
 					o.Status, o.Backend, o.Model, o.Output = "failed", x.name, x.r.output, x.r.output
 					break loop
 				case x.r.verdict == "sat" && x.relaxed:
+					// a candidate is only accepted after every solver had its full time on the complete query
 					xx := x
 					candidate = &xx
-					g := 2 * time.Since(t0)
-					if g < 4*time.Second {
-						g = 4 * time.Second
-					}
-					grace = time.After(g)
 				default:
 					if o.Output == "" {
 						o.Output = x.r.output
